@@ -91,6 +91,7 @@ def gen_case(rng, sim, nmax=12, buggify=None, horizon=None, allow_rho=True, dire
         case["tabseed"] = rng.getrandbits(32)
         case["api"] = rng.choice(["separate", "joint"])
         case["zero_delays"] = bool(zero_delays)
+        case["xargs"] = rng.random() < 0.5
         case["recovery_rule"] = (sim == "discrete_SIR" and rng.random() < 0.4)
         case["det_rule"] = (sim == "discrete_SIR" and rng.random() < 0.6)
     tmin = rng.choice([0, 0, 5, -2.5])
@@ -139,8 +140,19 @@ class Tables(object):
         # recovery".  C13 also exercises lists that ignore it (the property
         # speaks of every listed delay), flagged by sis_unfiltered.
         self.unfiltered = bool(case.get("sis_unfiltered"))
+        # extra positional arguments the simulator must forward to each user function
+        # (trans_time_args / rec_time_args / trans_and_rec_time_args / args): None = not used
+        self.expect = {}
+        self.bad_args = []
         self.calls = []
         self.count = {}
+
+    def _args(self, which, args):
+        want = self.expect.get(which)
+        if want is not None and tuple(args) != tuple(want):
+            self.bad_args.append((which, tuple(args), tuple(want)))
+        elif want is None and args:
+            self.bad_args.append((which, tuple(args), ()))
 
     def _k(self, *key):
         k = self.count.get(key, 0)
@@ -162,14 +174,17 @@ class Tables(object):
         return d
 
     def sir_trans_time(self, u, v, *args):
+        self._args("trans", args)
         self.calls.append(("trans", u, v))
         return self.sir_delay(u, v)
 
     def sir_rec_time(self, u, *args):
+        self._args("rec", args)
         self.calls.append(("rec", u))
         return self.sir_duration(u)
 
     def sir_joint(self, node, sus_neighbors, *args):
+        self._args("joint", args)
         self.calls.append(("joint", node, tuple(sus_neighbors)))
         return {v: self.sir_delay(node, v) for v in sus_neighbors}, self.sir_duration(node)
 
@@ -187,12 +202,14 @@ class Tables(object):
         return out
 
     def sis_rec_time(self, u, *args):
+        self._args("rec", args)
         i = self.index[u]
         k = self._k("r", i)
         self.calls.append(("rec", u, k))
         return self.sis_duration_k(i, k)
 
     def sis_trans_time(self, u, v, rec_delay, *args):
+        self._args("trans", args)
         i, j = self.index[u], self.index[v]
         k = self._k("t", i, j)
         self.calls.append(("trans", u, v, k))
@@ -200,6 +217,7 @@ class Tables(object):
         return [d for d in self.sis_delays_k(i, j, k) if self.unfiltered or d < rec_delay]
 
     def sis_joint(self, node, neighbors, *args):
+        self._args("joint", args)
         i = self.index[node]
         k = self._k("r", i)
         nb = list(neighbors)
@@ -209,6 +227,7 @@ class Tables(object):
 
     # discrete_SIR deterministic rule
     def contact_ok(self, u, v, *args):
+        self._args("contact", args)
         self.calls.append(("contact", u, v))
         return keyed(self.seed, "c", self.index[u], self.index[v]) < 0.55
 
@@ -282,23 +301,29 @@ def call(case, full, sim=None, tables=None, container="list"):
         kw["transmission_weight"] = "w" if case.get("ew") else None
         kw["recovery_weight"] = "nw" if case.get("nw") else None
         res = run_under(sim, fn, G, case["tau"], case["gamma"], **kw)
-    elif name == "fast_nonMarkov_SIR":
+    elif name in ("fast_nonMarkov_SIR", "fast_nonMarkov_SIS"):
+        sir = name.endswith("SIR")
+        xa = case.get("xargs")
         if case["api"] == "joint":
-            kw["trans_and_rec_time_fxn"] = tables.sir_joint
+            kw["trans_and_rec_time_fxn"] = tables.sir_joint if sir else tables.sis_joint
+            if xa:
+                kw["trans_and_rec_time_args"] = ("J", 3.5)
+                tables.expect["joint"] = ("J", 3.5)
         else:
-            kw["trans_time_fxn"] = tables.sir_trans_time
-            kw["rec_time_fxn"] = tables.sir_rec_time
-        res = run_under(sim, fn, G, **kw)
-    elif name == "fast_nonMarkov_SIS":
-        if case["api"] == "joint":
-            kw["trans_and_rec_time_fxn"] = tables.sis_joint
-        else:
-            kw["trans_time_fxn"] = tables.sis_trans_time
-            kw["rec_time_fxn"] = tables.sis_rec_time
+            kw["trans_time_fxn"] = tables.sir_trans_time if sir else tables.sis_trans_time
+            kw["rec_time_fxn"] = tables.sir_rec_time if sir else tables.sis_rec_time
+            if xa:
+                kw["trans_time_args"] = ("T", 1)
+                kw["rec_time_args"] = ("R", 2, None)
+                tables.expect["trans"] = ("T", 1)
+                tables.expect["rec"] = ("R", 2, None)
         res = run_under(sim, fn, G, **kw)
     elif name == "discrete_SIR":
         if case.get("det_rule"):
             kw["test_transmission"] = tables.contact_ok
+            if case.get("xargs"):
+                kw["args"] = ("A", 0.25)
+                tables.expect["contact"] = ("A", 0.25)
         else:
             kw["args"] = (case["p"],)
         if case.get("recovery_rule"):
